@@ -125,7 +125,7 @@ class PortsWorld(World):
     )
 
     def runs(self, prop, tier):
-        return {"quick": 900, "thorough": 30000}[tier]
+        return {"quick": 4000, "thorough": 50000}[tier]
 
     def rule(self, prop):
         return ("cases = (component class, configuration, stimulus burst) for the direction half "
